@@ -123,3 +123,32 @@ Example ex_chain :
   effective true [[EDisableAll true; EOverrides (OVList [OSec (Some [5%N]) [ESet 1]])]] [] 1 [5%N] = Some (Some 1%Z) /\
   effective true [[EDisableAll true; EOverrides (OVList [OSec (Some [5%N]) [ESet 1]])]] [] 1 [6%N] = Some (Some 0%Z).
 Proof. vm_compute. repeat split. Qed.
+
+(* ---- is_error_code_enabled_anywhere, end to end ---- *)
+Lemma lookup_inst_to_bool (stored : list (inst Z)) mp :
+  get_value_from_instances (map inst_to_bool stored) mp =
+  option_map (fun v => negb (Z.eqb v 0)) (get_value_from_instances stored mp).
+Proof.
+  unfold get_value_from_instances, for_first.
+  induction stored as [|x l IH]; cbn [map find]; [reflexivity|].
+  change (is_applicable_to (inst_to_bool x) mp) with (is_applicable_to x mp).
+  destruct (is_applicable_to x mp); [reflexivity|exact IH].
+Qed.
+
+(* a code that the pipeline enables for some module path is enabled "anywhere" *)
+Theorem enabled_for_a_module_enabled_anywhere files cli d mp v :
+  effective true files cli d mp = Some (Some v) -> v <> 0%Z ->
+  effective_anywhere files cli d = Some true.
+Proof.
+  unfold effective, effective_anywhere. destruct (parse_main true files) as [l| |]; try discriminate.
+  intros H Hv. injection H as H. f_equal.
+  apply (enabled_somewhere_enabled_anywhere _ _ mp).
+  rewrite default_last, lookup_inst_to_bool. rewrite default_last in H.
+  destruct (get_value_from_instances (from_option_list (map (fun v0 : Z => mk_inst v0 [] true 0%Z) cli) l) mp) as [w|];
+    cbn [option_map]; injection H as ->; f_equal; (destruct (Z.eqb_spec v 0) as [E|E]; [contradiction|reflexivity]).
+Qed.
+
+(* a configuration is rejected for "anywhere" exactly when it is rejected for the per-module lookups *)
+Theorem effective_anywhere_none_iff files cli d mp :
+  effective_anywhere files cli d = None <-> effective true files cli d mp = None.
+Proof. unfold effective, effective_anywhere. destruct (parse_main true files); split; intros H; try discriminate; reflexivity. Qed.
